@@ -50,12 +50,21 @@ type report struct {
 	nontrivial bool
 	sig        []string
 	fps        []string
+	// the accounting terms of the transaction (block mode accumulates them)
+	usedFee, exported, credits *big.Int
+	createOOG                  bool
 }
 
 func (r *report) label(l string) { r.labels = append(r.labels, l) }
 
+// extraDump is merged into every violation dump (block mode puts the whole block there).
+var extraDump map[string]any
+
 func dump(c *evmgen.Case, o *evmgen.Outcome, extra map[string]any) map[string]any {
 	m := map[string]any{"case": c.Dump()}
+	for k, v := range extraDump {
+		m[k] = v
+	}
 	if o != nil {
 		if o.Tracer != nil {
 			m["trace"] = o.Tracer.Dump()
@@ -93,6 +102,13 @@ func dump(c *evmgen.Case, o *evmgen.Outcome, extra map[string]any) map[string]an
 		m[k] = v
 	}
 	return m
+}
+
+func inboundValue(c *evmgen.Case) *big.Int {
+	if c.Tx.Kind == "etx" {
+		return c.Tx.Value
+	}
+	return new(big.Int)
 }
 
 func mul(a uint64, b *big.Int) *big.Int { return new(big.Int).Mul(new(big.Int).SetUint64(a), b) }
@@ -148,6 +164,7 @@ func checkCase(t stats.TB, part string, c *evmgen.Case, o *evmgen.Outcome) *repo
 	post := evmgen.PostArithFork(env.PrimeTerminusNumber)
 	maxCode := uint64(params.GetMaxCodeSize(env.BlockNumber))
 
+	partial := o.PartialBalances // a block step without a trie walk: only the accounting terms and the payer bound
 	// (i) no balance is negative --------------------------------------------------------------
 	for a, v := range o.After.ByAddr {
 		if v.Sign() < 0 {
@@ -162,7 +179,7 @@ func checkCase(t stats.TB, part string, c *evmgen.Case, o *evmgen.Outcome) *repo
 			if tr.Started && len(tr.Frames) > 0 && !tr.Frames[0].Failed && tr.Frames[0].CreateRejected(maxCode) == "codestore-oog" {
 				createOOG = true
 			}
-		} else {
+		} else if !partial {
 			// without the tracer: the only balance that moved besides the payer's is a new account
 			// holding exactly the endowment
 			changed := changedAccounts(o, o.Payer)
@@ -253,6 +270,18 @@ func checkCase(t stats.TB, part string, c *evmgen.Case, o *evmgen.Outcome) *repo
 		}
 	}
 
+	rp.usedFee, rp.exported, rp.credits, rp.createOOG = usedFee, exported, credits, createOOG
+	if partial {
+		if o.Payer != nil && !c.Tx.Suicide {
+			paid := new(big.Int).Sub(o.Before.Get(*o.Payer), o.After.Get(*o.Payer))
+			if maxPaid := new(big.Int).Add(limitFee, c.Tx.Value); paid.Cmp(maxPaid) > 0 {
+				viol("C02/payer-charge/above-gaslimit-x-price", fmt.Sprintf("fee payer paid %v, more than gas limit x price %v plus value %v", paid, limitFee, c.Tx.Value), nil)
+			}
+		}
+		rp.sig = []string{fmt.Sprintf("status=%d", rcpt.Status), c.Tx.Kind, c.Tx.ToClass}
+		return rp
+	}
+
 	// (iii) operand-independent bound: S_after <= S_before - usedGas*price - sum(e.value) + credits
 	bound := new(big.Int).Sub(o.Before.Sum, usedFee)
 	bound.Sub(bound, exported)
@@ -260,8 +289,8 @@ func checkCase(t stats.TB, part string, c *evmgen.Case, o *evmgen.Outcome) *repo
 	created := new(big.Int).Sub(o.After.Sum, bound)
 	if created.Sign() > 0 {
 		fp := "C02/value-created/sum-exceeds-bound"
-		msg := fmt.Sprintf("sum of balances %v -> %v; gas charge %v (used %d x price %v), value carried by exported ETXs %v, protocol credits %v (inbound %v, %d self-destruct refunds of %v): %v wei more than the accounting allows",
-			o.Before.Sum, o.After.Sum, usedFee, rcpt.GasUsed, price, exported, credits, c.Tx.Value, mints, o.Refund, created)
+		msg := fmt.Sprintf("sum of balances %v -> %v; gas charge %v (used %d x price %v), value carried by exported ETXs %v, protocol credits %v (inbound ETX value %v, %d self-destruct refunds of %v): %v wei more than the accounting allows",
+			o.Before.Sum, o.After.Sum, usedFee, rcpt.GasUsed, price, exported, credits, inboundValue(c), mints, o.Refund, created)
 		if !post {
 			// an exported ETX that carries more than all balances together cannot have been debited
 			for _, e := range rcpt.OutboundEtxs {
